@@ -123,6 +123,12 @@ impl ActTask for Act {
                     task.set_state(TaskState::Completed);
                 }
 
+                // an act that waits for somebody else to complete it (a sub-process call)
+                // holds its successor back until then
+                if !task.state().is_completed() {
+                    return Ok(true);
+                }
+
                 if let Some(next) = &task.node.next().upgrade() {
                     ctx.sched_task(next);
                     return Ok(true);
